@@ -90,6 +90,8 @@ def gen_request(t):
         elif kind == "mp":
             form = mpm.gen_form(t, max_parts=3, file_bias=2, allow_pre_epi=False)
             body = mpm.encode_form(form)
+            if t.draw(8) == 0 and len(body) > 4:
+                body = body[:t.draw(len(body))]       # the client gave up mid-body / a proxy cut it: both stacks must agree on what that is
             headers.append(("Content-Type", mpm.content_type_header(form)))
         else:
             body = t.bytes_of(t.draw(30))
@@ -132,7 +134,8 @@ def gen_app(t, depth=0):
         n = 1 + t.draw(3)
         return {"t": "hosts", "hosts": [(t.choice(HOSTS), gen_app(t, depth + 1)) for _ in range(n)]}
     if k == "mw":
-        return {"t": "mw", "edit": t.choice([None, None, ("x-edited", "1")]), "inner": gen_app(t, depth + 1)}
+        # "reflect": the middleware looks at the request AFTER the inner application ran (path parameters and mount prefix as routing left them)
+        return {"t": "mw", "edit": t.choice([None, None, ("x-edited", "1"), "reflect", "reflect"]), "inner": gen_app(t, depth + 1)}
     if k == "dec":
         return {"t": "dec", "inner": t.choice([{"t": "dump", "order": t.choice(["bjf", "fbj"])}, {"t": "resp", "recipe": recipes.gen_recipe(t, kinds=["response", "text", "json", "redirect"])}])}
     return {"t": k, "dir": t.choice(["site", "site/sub"]), "cacheability": t.choice(["public", "no-cache"]), "max_age": t.choice([600, 0])}
@@ -276,14 +279,18 @@ class C04(Prop):
                 @M.middleware
                 def m(request, next_call):
                     resp = next_call(request)
-                    if edit:
+                    if edit == "reflect":
+                        resp.headers["x-seen"] = ("%r %r %s" % (sorted((k, str(v)) for k, v in request.path_params.items()), request.get("SCRIPT_NAME", "").encode("latin-1").decode("utf-8", "replace"), request.url.path)).encode("ascii", "backslashreplace").decode("ascii")
+                    elif edit:
                         resp.headers[edit[0]] = edit[1]
                     return resp
             else:
                 @M.middleware
                 async def m(request, next_call):
                     resp = await next_call(request)
-                    if edit:
+                    if edit == "reflect":
+                        resp.headers["x-seen"] = ("%r %r %s" % (sorted((k, str(v)) for k, v in request.path_params.items()), request.get("root_path", ""), request.url.path)).encode("ascii", "backslashreplace").decode("ascii")
+                    elif edit:
                         resp.headers[edit[0]] = edit[1]
                     return resp
             return m(inner)
